@@ -441,7 +441,223 @@ def r14_6(prog: Program, rep):
            "has two answers depending on whether a .bitmap file exists", fb.node.lineno)
 
 
+def r14_7(prog: Program, rep):
+    """(1) SAME-PACK: bit positions of a bitmap are positions in ONE pack's index; bitmaps are combined (|, -) only when they
+    come from the same pack - the lookup of the bitmaps to subtract is restricted to the pack of the accumulated bitmap, or
+    every combination sits behind a pack equality test.
+    (2) SAME-TREATMENT: parents taken from the commit-graph go through the same existence filter as parents taken from the
+    commit object (a stale graph of a history-truncated clone names parents that are not there)."""
+    from sa.flow import reaching_defs
+    m = prog.module(OS_PY)
+    f = m.funcs.get("BitmapReachability._combine_commit_bitmaps")
+    if f is None:
+        raise AnalysisError("BitmapReachability._combine_commit_bitmaps not found")
+    lookups = [x for x in ast.walk(f.node) if isinstance(x, ast.Assign) and isinstance(x.value, ast.Call) and callee_name(x.value) == "find_commit_bitmaps"
+               and isinstance(x.targets[0], ast.Name) and len(x.value.args) >= 2]
+    packvars = {t.id for x in ast.walk(f.node) if isinstance(x, ast.Assign) for t in [x.targets[0]] if isinstance(t, ast.Name) and "pack" in t.id and "bitmap" not in t.id}
+    n = 0
+    for lk in lookups:
+        res, scope_ = lk.targets[0].id, lk.value.args[1]
+        restricted = isinstance(scope_, ast.List) and len(scope_.elts) == 1 and isinstance(scope_.elts[0], ast.Name) and scope_.elts[0].id in packvars
+        # loops consuming this lookup
+        for lp in [x for x in ast.walk(f.node) if isinstance(x, ast.For) and any(isinstance(y, ast.Name) and y.id == res for y in ast.walk(x))]:
+            combines = [b for b in ast.walk(lp) if isinstance(b, (ast.BinOp, ast.AugAssign)) and isinstance(b.op, (ast.BitOr, ast.Sub, ast.BitAnd, ast.BitXor)) and "bitmap" in norm(b)]
+            if not combines:
+                continue
+            n += 1
+            guarded = any(isinstance(t, ast.Compare) and len(t.ops) == 1 and isinstance(t.ops[0], (ast.Eq, ast.NotEq, ast.Is, ast.IsNot))
+                          and {type(t.left), type(t.comparators[0])} == {ast.Name} and {t.left.id, t.comparators[0].id} & packvars
+                          and "pack" in t.left.id and "pack" in t.comparators[0].id for t in ast.walk(lp))
+            rep.ob("R14.7", m.rel, f.qual, f"bitmaps found by `{norm(lk.value, 60)}` are combined only within one pack", restricted or guarded,
+                   "the lookup spans several packs and nothing compares the pack before the bitmaps are combined: bit positions of one pack's index "
+                   "are applied to another pack's bitmap - a wrong object set", lk.lineno)
+    if n < 2:
+        raise AnalysisError(f"_combine_commit_bitmaps: expected >= 2 bitmap combination loops, found {n}")
+    gd = m.funcs.get("get_depth")
+    if gd is None:
+        raise AnalysisError("get_depth not found")
+    g = cfg_of(prog, gd)
+    rd = reaching_defs(g)
+
+    def filtered(e):
+        """a comprehension / generator over parents with an `in store` filter"""
+        return isinstance(e, (ast.GeneratorExp, ast.ListComp, ast.SetComp)) and any(
+            isinstance(c, ast.Compare) and isinstance(c.ops[0], ast.In) and "store" in norm(c.comparators[0]) for gen in e.generators for i_ in gen.ifs for c in ast.walk(i_))
+    ext = [(i, c) for i, nd in g.nodes.items() for c in node_calls(nd) if isinstance(c.func, ast.Attribute) and c.func.attr in ("extend", "append", "appendleft")
+           and "queue" in norm(c.func.value)]
+    if not ext:
+        raise AnalysisError("get_depth: the statement that queues the parents was not found")
+    for i, c in ext:
+        arg = c.args[0] if c.args else None
+        if filtered(arg):
+            ok = True
+        else:
+            names = {y.id for y in ast.walk(arg) if isinstance(y, ast.Name)} if arg is not None else set()
+            pv = [nm for nm in names if "parent" in nm]
+            defs = [g.nodes[d] for nm in pv for d in rd[i].get(nm, ())]
+            vals = [dn.ast.value for dn in defs if dn.kind == "stmt" and isinstance(dn.ast, ast.Assign) and not (isinstance(dn.ast.value, ast.Constant) and dn.ast.value.value is None)]
+            ok = bool(vals) and all(filtered(v) for v in vals)
+        rep.ob("R14.7", m.rel, gd.qual, "parents from the commit-graph and from the commit object pass the same `in store` filter before they are queued", ok,
+               "parents answered by the commit-graph are queued without checking that they exist: with a stale graph in a shallow clone the depth "
+               "(and what a deepening fetch asks for) differs with and without the graph", c.lineno)
+
+
+def r14_9(prog: Program, rep):
+    """SAME CLOSURE, part 2 (the two providers answer the same questions): (a) a tree is reachable from itself -
+    GraphTraversalReachability.get_tree_objects puts each starting tree into its result (the bitmap of a commit has the bit
+    of its root tree); (b) `exclude` means "everything reachable from these commits", as the bitmap subtraction computes:
+    the stop set handed to the walk from heads is the ANCESTRY of the excluded commits, not the commits alone."""
+    m = prog.module(OS_PY)
+    f = m.funcs.get("GraphTraversalReachability.get_tree_objects")
+    if f is None:
+        raise AnalysisError("GraphTraversalReachability.get_tree_objects not found")
+    loops = [l for l in ast.walk(f.node) if isinstance(l, ast.For) and isinstance(l.target, ast.Name)]
+    adds_self = False
+    for l in loops:
+        v = l.target.id
+        for c in ast.walk(l):
+            if isinstance(c, ast.Call) and isinstance(c.func, ast.Attribute) and c.func.attr in ("add", "update") and c.args \
+                    and any(isinstance(x, ast.Name) and x.id == v for x in ast.walk(c.args[0])):
+                adds_self = True
+    if not adds_self:
+        # or the collector adds its own starting tree
+        col = m.funcs.get("_collect_filetree_revs")
+        if col is not None:
+            ps = [a.arg for a in col.node.args.args]
+            adds_self = any(isinstance(s_, ast.Expr) and isinstance(s_.value, ast.Call) and isinstance(s_.value.func, ast.Attribute) and s_.value.func.attr == "add"
+                            and s_.value.args and isinstance(s_.value.args[0], ast.Name) and len(ps) > 1 and s_.value.args[0].id == ps[1] for s_ in col.node.body)
+    if not loops:
+        adds_self = adds_self or any(isinstance(c, ast.Call) and callee_name(c) in ("set", "update") for c in ast.walk(f.node))
+    rep.ob("R14.9", m.rel, f.qual, "each starting tree is part of the answer (a tree is reachable from itself)", adds_self,
+           "_collect_filetree_revs adds what a tree CONTAINS; without the tree itself get_reachable_objects omits every commit's root tree, which the "
+           "bitmap of the commit includes: the same query differs with and without a .bitmap file", f.node.lineno)
+    f = m.funcs.get("GraphTraversalReachability.get_reachable_commits")
+    if f is None:
+        raise AnalysisError("GraphTraversalReachability.get_reachable_commits not found")
+    g = cfg_of(prog, f)
+    from sa.flow import reaching_defs
+    rd = reaching_defs(g)
+    walks = [(i, c) for i, n in g.nodes.items() for c in node_calls(n) if callee_name(c) == "_collect_ancestors" and len(c.args) >= 3]
+    heads_walks = [(i, c) for i, c in walks if isinstance(c.args[1], ast.Name) and c.args[1].id == "heads"]
+    if not heads_walks:
+        raise AnalysisError("get_reachable_commits: the walk from `heads` (_collect_ancestors(store, heads, stop, ..)) not found")
+    ok = True
+    for i, c in heads_walks:
+        stop = c.args[2]
+        if not isinstance(stop, ast.Name):
+            ok = False
+            continue
+        # some reaching definition of the stop set is derived from the result of a walk over the excluded commits
+        derived = False
+        for d in rd[i].get(stop.id, ()):
+            a = g.nodes[d].ast
+            val = getattr(a, "value", None)
+            if val is None:
+                continue
+            srcs = {x.id for x in ast.walk(val) if isinstance(x, ast.Name)}
+            for s_ in srcs:
+                for d2 in rd[d].get(s_, ()):
+                    a2 = g.nodes[d2].ast
+                    if any(isinstance(cc, ast.Call) and callee_name(cc) == "_collect_ancestors" for cc in ast.walk(a2)):
+                        derived = True
+            if any(isinstance(cc, ast.Call) and callee_name(cc) == "_collect_ancestors" for cc in ast.walk(val)):
+                derived = True
+        ok = ok and derived
+    rep.ob("R14.9", m.rel, f.qual, "the stop set of the walk from heads is the ancestry of the excluded commits", ok,
+           "the excluded commits are only a stop set: an ancestor of an excluded commit that is also reachable around it (other parent of a merge) "
+           "stays in the answer, while the bitmap provider subtracts everything reachable from the excluded commits", heads_walks[0][1].lineno)
+
+
+def r14_10(prog: Program, rep):
+    """A bitmap describes positions in ONE pack.  A commit whose closure leaves the pack cannot be described: the generator
+    (a) notices every reachable object that has no position (the else side of the `in sha_to_pos` test and the KeyError
+    handler record it), and (b) appends a commit bitmap only on the path where nothing was recorded."""
+    m = prog.module("dulwich/bitmap.py")
+    b = m.funcs.get("build_reachability_bitmap")
+    gfn = m.funcs.get("generate_bitmap")
+    if b is None or gfn is None:
+        raise AnalysisError("bitmap.build_reachability_bitmap / generate_bitmap not found")
+    ps = [a.arg for a in b.node.args.args + b.node.args.kwonlyargs]
+    tests = [t for t in ast.walk(b.node) if isinstance(t, ast.If) and isinstance(t.test, ast.Compare) and isinstance(t.test.ops[0], (ast.In, ast.NotIn))
+             and "sha_to_pos" in norm(t.test.comparators[0])]
+    if not tests:
+        raise AnalysisError("build_reachability_bitmap: membership test against the pack positions not found")
+
+    def records(stmts):
+        return any(isinstance(c, ast.Call) and isinstance(c.func, ast.Attribute) and c.func.attr in ("add", "append", "update") and isinstance(c.func.value, ast.Name)
+                   and c.func.value.id in ps for s_ in stmts for c in ast.walk(s_)) or any(isinstance(s_, (ast.Return, ast.Raise)) for s_ in stmts)
+    rec = all(records(t.orelse if isinstance(t.test.ops[0], ast.In) else t.body) for t in tests)
+    rep.ob("R14.10", m.rel, b.qual, "a reachable object without a position in the pack is reported to the caller (not silently dropped)", rec,
+           "bits are set only for the reachable objects that are in the pack: for a pack that is not closed under reachability (repack(write_bitmaps) "
+           "packs only the loose objects) the commit's bitmap covers part of what it reaches and BitmapReachability answers from it", tests[0].lineno)
+    g = cfg_of(prog, gfn)
+    calls = [(i, c) for i, n in g.nodes.items() for c in node_calls(n) if callee_name(c) == "build_reachability_bitmap"]
+    results = {n.ast.targets[0].id for i, n in g.nodes.items() if n.kind == "stmt" and isinstance(n.ast, ast.Assign) and isinstance(n.ast.targets[0], ast.Name)
+               and isinstance(n.ast.value, ast.Call) and callee_name(n.ast.value) == "build_reachability_bitmap"}
+    apps = [i for i, n in g.nodes.items() for c in node_calls(n) if isinstance(c.func, ast.Attribute) and c.func.attr in ("append", "add", "__setitem__")
+            and any(isinstance(x, ast.Name) and x.id in results for a_ in c.args for x in ast.walk(a_))]
+    if not apps or not calls:
+        raise AnalysisError("generate_bitmap: build_reachability_bitmap call / append of the commit bitmap not found")
+    outs = {a.id for _, c in calls for a in list(c.args[3:]) + [k.value for k in c.keywords] if isinstance(a, ast.Name)}
+    guards = {i: ("true" if norm(n.ast) in outs or norm(n.ast).startswith("len(") else "false") for i, n in g.nodes.items()
+              if n.kind == "test" and any(isinstance(x, ast.Name) and x.id in outs for x in ast.walk(n.ast))}
+    for i, n in g.nodes.items():
+        if i in guards and norm(n.ast).startswith("not "):
+            guards[i] = "false"
+    # with the 'something is outside' edge as the only way on, the append must be unreachable from the call
+    r = reach(g, [b_ for i, _ in calls for b_, l in g.succ[i] if l not in ("exc", "raise")], include_srcs=True,
+              edge_ok=lambda a, b_, l: not (a in guards and l != guards[a] and l in ("true", "false")))
+    leak = [x for x in apps if x in r]
+    rep.ob("R14.10", m.rel, gfn.qual, "a commit bitmap is kept only when nothing the commit reaches lies outside the pack", bool(outs) and bool(guards) and not leak,
+           "the bitmap of a commit whose closure leaves the pack is written all the same" if outs else "generate_bitmap does not ask which reachable objects are outside the pack",
+           g.nodes[apps[0]].line)
+
+
+def r14_11(prog: Program, rep):
+    """PEELED VALUES belong to the packed VALUE.  (a) get_peeled answers from packed-refs only after it has seen that no
+    loose ref overrides the name; (b) add_packed_refs does not write back the peeled map it read unchanged: the entry of a
+    ref whose target changes is dropped; (c) a file without the 'peeled' trait yields no peeled knowledge (None, not {});
+    (d) the trait is not claimed unconditionally (third argument of write_packed_refs can be None)."""
+    m = prog.module("dulwich/refs.py")
+    f = m.funcs.get("DiskRefsContainer.get_peeled")
+    if f is None:
+        raise AnalysisError("DiskRefsContainer.get_peeled not found")
+    g = cfg_of(prog, f)
+    rets = [i for i, n in g.nodes.items() if n.kind == "stmt" and isinstance(n.ast, ast.Return) and n.ast.value is not None
+            and not (isinstance(n.ast.value, ast.Constant) and n.ast.value.value is None)]
+    loose = [i for i, n in g.nodes.items() if n.kind == "test" and any(callee_name(c) == "read_loose_ref" for c in node_calls(n))]
+    if not rets:
+        raise AnalysisError("get_peeled: no value return found")
+    bad = must_pass(g, rets, loose)
+    rep.ob("R14.11", m.rel, f.qual, "a peeled value is returned only after the loose ref of that name was looked at", bool(loose) and not bad,
+           "packed-refs alone decides: after a tag was re-created (loose file overriding the packed line) the peeled commit of the OLD tag is served and advertised",
+           g.nodes[(bad or rets)[0]].line)
+    f = m.funcs.get("DiskRefsContainer.add_packed_refs")
+    ws = [c for c in ast.walk(f.node) if isinstance(c, ast.Call) and callee_name(c) == "write_packed_refs" and len(c.args) >= 3]
+    if not ws:
+        raise AnalysisError("add_packed_refs: write_packed_refs(f, packed, peeled) not found")
+    raw = [c for c in ws if norm(c.args[2]) == "self._peeled_refs"]
+    pops = [c for c in ast.walk(f.node) if isinstance(c, ast.Call) and isinstance(c.func, ast.Attribute) and c.func.attr == "pop" and isinstance(c.func.value, ast.Name)
+            and "peel" in c.func.value.id]
+    rep.ob("R14.11", m.rel, f.qual, "the peeled map written back is a copy from which the entries of changed refs were removed", not raw and bool(pops),
+           "the peeled values read from packed-refs are written back unchanged: a tag packed again with a new target keeps the old `^<sha>` line", ws[0].lineno)
+    cond = [c for c in ws if isinstance(c.args[2], ast.IfExp) or (isinstance(c.args[2], ast.Name) and any(
+        isinstance(s_, ast.Assign) and isinstance(s_.targets[0], ast.Name) and s_.targets[0].id == c.args[2].id and isinstance(s_.value, ast.Constant) and s_.value.value is None
+        for s_ in ast.walk(f.node)))]
+    rep.ob("R14.11", m.rel, f.qual, "the 'peeled' trait is not claimed when a tag ref is added whose peel status is unknown", bool(cond),
+           "under `# pack-refs with: peeled` a refs/tags/ entry without a `^` line is declared NOT to be a tag object: pack_refs of a new annotated tag makes "
+           "dulwich and git take the tag object itself for the peeled value", ws[0].lineno)
+    f = m.funcs.get("DiskRefsContainer.get_packed_refs")
+    sets_none = [s_ for s_ in ast.walk(f.node) if isinstance(s_, ast.Assign) and norm(s_.targets[0]) == "self._peeled_refs" and isinstance(s_.value, ast.Constant) and s_.value.value is None]
+    rep.ob("R14.11", m.rel, f.qual, "a packed-refs file without the peeled trait leaves the peeled map unknown (None)", bool(sets_none),
+           "an empty map means 'every packed ref is known not to be a tag': get_peeled returns the tag object itself for an annotated tag", f.node.lineno)
+
+
 def run(prog: Program, rep, tier="quick"):
+    rep.rule("R14.9", "SAME CLOSURE: the graph provider includes the starting trees and excludes the whole ancestry of the excluded commits, as bitmaps do")
+    rep.rule("R14.10", "a commit bitmap is written only when the pack holds everything the commit reaches (objects without a position are reported, not dropped)")
+    rep.rule("R14.11", "peeled values belong to the packed value: loose override seen first, stale entries dropped, no trait = unknown, trait not claimed for unknown tags")
+    rep.rule("R14.7", "bitmaps are combined only within one pack; commit-graph parents get the same existence filter as object parents")
     rep.rule("R14.6", "partial acceleration never answers: incomplete bitmap lookups end in the fallback; both providers mean the same closure")
     rep.rule("R14.5", "XOR-compressed bitmap entries are resolved against the RESOLVED base (recursive get_bitmap), never against stored bits")
     rep.rule("R14.1", "commit-graph: a miss falls back to the store at every use site; the graph replaces only the default "
@@ -458,6 +674,14 @@ def run(prog: Program, rep, tier="quick"):
     r14_4(prog, rep)
     r14_5(prog, rep)
     r14_6(prog, rep)
+    r14_7(prog, rep)
+    r14_9(prog, rep)
+    r14_10(prog, rep)
+    r14_11(prog, rep)
+    from sa.common import share
+    from rules import c10
+    share(rep, lambda: c10.r10_8(prog, rep), "R14.8", lambda o: True,
+          "packed-refs never shadows a loose ref (shared with R10.8): wherever both are consulted the loose value is read first and wins")
     rep.floor("R14.1", 6)
     rep.floor("R14.2", 8)
     rep.floor("R14.3", 4)
